@@ -30,13 +30,13 @@ TABLE = {
          "Generated tree programs and flat CLP(FD) programs (with an inserted disjunction) are run as written and under up to 6 permutations of all goal lists and clause lists; answer multisets (instance-set equivalence / ground tuples) must agree; a scale family reorders programs with hundreds of disequalities, clauses, list cells or domain values. Exploration.",
          "Implementation compared with itself under reordering; no reference model needed."),
  "C05": (PBT + " against a reference depth-first interpreter, position by position, observed through a ticket fngoal (engine order) and at the iterator",
-         "Generated search programs (nested cond/conjunction/fresh/closure, list relations on literal lists) wrapped in dfs{}: the order in which states leave the depth-first block and the order at the iterator must both equal the reference's Prolog order. A scale family uses disjunctions of up to 400 clauses, chains of up to 200 binary choice points and recursive relations (also recursive-clause-first and non-tail-recursive ones) over literal lists of up to 400/1000 elements. Exploration.",
+         "Generated search programs (nested cond/conjunction/fresh/closure, list relations on literal lists) wrapped in dfs{}: the order in which states leave the depth-first block and the order at the iterator must both equal the reference's Prolog order (half of the cases built with the constructor functions DFSDisj/DFSConj instead of the operators, both spellings of a dfs body). A scale family uses disjunctions of up to 400 clauses, chains of up to 200 binary choice points and recursive relations (also recursive-clause-first and non-tail-recursive ones) over literal lists of up to 400/1000 elements. Exploration.",
          REFI),
  "C06": (PBT + ": differential interleaving vs depth-first vs reference interpreter (finite trees); soundness of bounded prefixes of infinite streams against reference set semantics",
          "Finite search programs must have equal answer multisets under interleaving search, under dfs{} and in the reference; for programs with infinite producers ground instances of the first 25 answers must be solutions. The scale family of C05 is reused for the finite comparison. Every finite program is additionally built through the constructor functions of the public API (Disj/DFSDisj::from_conjunctions, Conj::from_vec, pairwise Disj::new / Conj::new) instead of the operators the macros expand to. Exploration.",
          REFI),
  "C07": (PBT + ": bounded liveness in engine steps (step-counter hook): obligations from each branch run alone must appear in the whole disjunction within a generous step bound",
-         "Disjunctions mixing finite goals, infinite producers and silent divergers at several nesting positions; each branch's first answers (run alone) must be produced by the whole disjunction within 256x their cost + 10000 steps (10x confirm run). A scale family uses disjunctions of up to 200/600 branches and divergers buried below up to 400/1000 pending conjunctions. Decides starvation/divergence, not mere slowness. Exploration.",
+         "Disjunctions mixing finite goals, infinite producers and silent divergers at several nesting positions; each branch's first answers (run alone) must be produced by the whole disjunction within 256x their cost + 10000 steps (10x confirm run). A scale family uses disjunctions of up to 200/600 branches and divergers buried below up to 400/1000 pending conjunctions. A third of the cases each is built as the macros expand, with from_conjunctions, and with nested Disj::new. Decides starvation/divergence, not mere slowness. Exploration.",
          "Needs the cfg-guarded step counter in StreamEngine::step; bounded liveness only."),
  "C08": (PBT + ": metamorphic relation between a committed-choice program and the program with the committed head (conda) or its first head answer re-imposed (condu/onceo); reference interpreter for conda and matcha/matchu",
          "conda/condu/onceo over generated heads with 0/1/many/lazy/infinite answers and generated rest goals; matcha/matchu built dynamically; conda over finite-domain posting sequences cut into prefix | head | rest; heads whose first answer needs up to millions of engine steps (scale). Exploration.",
